@@ -60,7 +60,9 @@ def all_cases(mod, pid, tier, seed):
 def run_one(mod, pid, case):
     import zlib
     from . import harness as H
-    H.DEBUG_DEFAULT = zlib.crc32(repr(case).encode()) % 5 == 0
+    h = zlib.crc32(repr(case).encode())
+    H.DEBUG_DEFAULT = h % 5 == 0
+    H.LOOP_DEBUG_DEFAULT = h % 11 == 3
     try:
         if isinstance(case, dict) and case.get("k") == "soak":
             from . import soak
@@ -70,9 +72,13 @@ def run_one(mod, pid, case):
         if H.DEBUG_DEFAULT and isinstance(r, dict):
             r.setdefault("obs", {})
             r["obs"]["cases_with_debug_logging_on"] = 1
+        if H.LOOP_DEBUG_DEFAULT and isinstance(r, dict):
+            r.setdefault("obs", {})
+            r["obs"]["cases_with_asyncio_debug_mode"] = 1
         return r
     finally:
         H.DEBUG_DEFAULT = False
+        H.LOOP_DEBUG_DEFAULT = False
 
 
 def worker(pid, tier, seed, shard, nshards, out_path, budget_s):
